@@ -158,12 +158,35 @@ pub fn run() -> i32 {
     par_fold(g.states.len(), 256, Acc::default, |i, a| check(&g.states[i], format!("bfs|{}", show_cw(&g.states[i])), a), |a| t4.merge(a));
     r.boxes.push(json!({"box": "(iv) states reached by the C08 BFS", "states": g.states.len(), "round_trip_ok": t4.ok, "unrenderable": t4.unrenderable, "failures": t4.viols.len()}));
     r.guard(t4.ok > 1000, "(iv) more than 1000 BFS states round-trip");
-    r.evaluations = t1.evals + t2.evals + t2b.evals + t3.evals + t4.evals; r.transitions = r.evaluations * 2; r.validated = t1.ok + t2.ok + t2b.ok + t3.ok + t4.ok;
+    // (v) words typed in Americanist notation are written back in it: what is written must still be readable and stay as it is, also when the
+    // Americanist letter stands inside a bigger grapheme (an affricate with a diacritic) or comes about through a rule
+    let mut t5 = Acc::default();
+    {
+        let mut cases: Vec<(String, Vec<&str>)> = vec![];
+        for lead in ["ñ", "ł", "¢"] { for aff in ["ƛ", "¢", "λ", "ł", "ñ", "t͡ɬ", "t͡s", "d͡ɮ", "ɬ", "ɲ", "ⁿt͡s"] { for dia in ["", "ʼ", "ʷ", "ʰ", "\u{32A}", "ː", "ʲ"] { for (a, b) in [("a.", "a"), ("", "a"), ("a", "")] {
+            cases.push((format!("{}{}{}{}{}", lead, a, aff, dia, b), vec![]));
+        } } } }
+        for (w, rl) in [("ła.ta", vec!["ɬ > t͡ɬʼ"]), ("ña.ƛa", vec!["t͡ɬ > [+round]"]), ("ña.ta", vec!["t > t͡s / _a", "t͡s > [+sg]"]), ("¢a.na", vec!["n > ɲ", "t͡s > [+long]"]), ("ła", vec!["a > ⁿt͡s"])] { cases.push((w.to_string(), rl)); }
+        for (w, rl) in &cases {
+            t5.evals += 1;
+            let groups: Vec<asca::RuleGroup> = rl.iter().map(|x| group(&[x])).collect();
+            let first = guarded(budget_for(12, 40) * 2, || asca::run(&groups, &[w.clone()], &[], &[]));
+            let Out::Ok(Ok(out1)) = first else { t5.unrenderable += 1; continue };   // the typed word itself is not accepted: nothing was written
+            if out1[0].contains('\u{fffd}') { t5.unrenderable += 1; continue; }
+            match guarded(budget_for(12, 40) * 2, || asca::run(&[], &out1, &[], &[]).map_err(|e| format!("{:?}", e))) {
+                Out::Ok(Ok(out2)) if out2 == out1 => { t5.ok += 1; t5.outs.insert(hash64(&out1)); }
+                o => t5.viols.push(Viol { key: format!("americanist-readback|{}|{}", w, rl.join(" ;; ")), desc: format!("`{}` under {:?} is written `{}`; reading that back gives {}", w, rl, out1[0], match &o { Out::Ok(v) => format!("{:?}", v), c => c.crash_desc().unwrap_or_default() }), case: json!({"kind": "americanist"}) }),
+            }
+        }
+        r.boxes.push(json!({"box": "(v) words typed in Americanist notation: letters inside bigger graphemes, with diacritics, produced by rules", "words": t5.evals, "round_trip_ok": t5.ok, "not_written": t5.unrenderable, "failures": t5.viols.len()}));
+        r.guard(t5.ok > 200, "(v) more than 200 Americanist words round-trip");
+    }
+    r.evaluations = t1.evals + t2.evals + t2b.evals + t3.evals + t4.evals + t5.evals; r.transitions = r.evaluations * 2; r.validated = t1.ok + t2.ok + t2b.ok + t3.ok + t4.ok;
     r.outcome("round_trip_ok", r.validated); r.outcome("unrenderable (contains �; outside the property)", t1.unrenderable + t2.unrenderable + t3.unrenderable + t4.unrenderable);
     let mut outs = t1.outs; outs.extend(t2.outs); outs.extend(t3.outs); outs.extend(t4.outs);
     r.nontrivial = outs.len() as u64; r.states = outs;
     r.sample(json!({"word": show_cw(&shapes[shapes.len() / 2])})); r.sample(json!({"segment": show_cw(&one(uni[uni.len() / 3]))}));
-    for v in t1.viols.into_iter().chain(t2.viols).chain(t2b.viols).chain(t3.viols).chain(t4.viols) { r.viol(v); }
+    for v in t1.viols.into_iter().chain(t2.viols).chain(t2b.viols).chain(t3.viols).chain(t4.viols).chain(t5.viols) { r.viol(v); }
     // keys are cell-exact already; the class summary groups by prefix
     r.finish()
 }
